@@ -51,3 +51,26 @@
 ; a disabled (N = 0) or frozen window ignores every outcome
 (define-fun lemma_iter_inert ((s Win) (x Bool)) Bool
   (=> (or (= (w_n s) 0) (> (w_nc s) (w_t s))) (forall ((m Int)) (= (win_iter s x m) s))))
+
+(define-fun lemma_cnt_zero_all ((a (Array Int Bool)) (n Int)) Bool
+  (=> (= (cnt a n) 0) (forall ((k Int)) (=> (and (<= 0 k) (< k n)) (not (select a k))))))
+
+; a window with no nack among its outcomes: acks do not change what it remembers
+; (this is what makes the v2 Ack shortcut invisible)
+(define-fun win_clean ((s Win)) Bool
+  (and (= (w_nc s) 0) (forall ((k Int)) (=> (and (<= 0 k) (< k (w_n s))) (not (select (w_arr s) k))))))
+(define-fun win_wf ((s Win)) Bool
+  (and (>= (w_n s) 0) (=> (> (w_n s) 0) (and (<= 0 (w_cur s)) (< (w_cur s) (w_n s))))))
+(define-fun lemma_ack_clean ((s Win) (m Int)) Bool
+  (=> (and (win_clean s) (win_wf s))
+      (and (win_clean (win_iter s false m)) (win_wf (win_iter s false m))
+           (= (w_n (win_iter s false m)) (w_n s)) (= (w_t (win_iter s false m)) (w_t s)))))
+
+; the view of the ring: outcome k counted from the oldest (k = n-1 is the newest)
+(define-fun win_view ((s Win) (k Int)) Bool
+  (select (w_arr s) (ite (< (+ (w_cur s) 1 k) (w_n s)) (+ (w_cur s) 1 k) (- (+ (w_cur s) 1 k) (w_n s)))))
+; one recorded outcome drops the oldest and appends the new one: the ring is a
+; sliding window over the last n outcomes
+(define-fun lemma_ring_shift ((s Win) (x Bool) (k Int)) Bool
+  (=> (and (win_wf s) (> (w_n s) 0) (<= (w_nc s) (w_t s)) (<= 0 k) (< k (w_n s)))
+      (= (win_view (win_step s x) k) (ite (< k (- (w_n s) 1)) (win_view s (+ k 1)) x))))
